@@ -720,6 +720,16 @@ func atoi(s string) int { n, _ := strconv.Atoi(s); return n }
 
 // typeByName resolves "pkg.T" / "*pkg.T" / basic type names to a types.Type.
 func (e *Engine) typeByName(name string) types.Type {
+	if strings.ContainsAny(name, "[]({ ") {
+		// composite type expression over predeclared types: "map[string]interface{}", "func() interface{}", "[]interface{}"
+		for _, tp := range e.tpkgs {
+			if tv, err := types.Eval(e.prog.Fset, tp, token.NoPos, name); err == nil && tv.IsType() {
+				e.typeID(tv.Type)
+				return tv.Type
+			}
+		}
+		return nil
+	}
 	ptr := strings.HasPrefix(name, "*")
 	base := strings.TrimPrefix(name, "*")
 	var t types.Type
